@@ -60,6 +60,7 @@ type Scenario struct {
 	Peers       int            `json:"peers,omitempty"`
 	StallAt     int            `json:"stall_at,omitempty"` // tcp, one peer: before its n-th frame (1-based) the peer sends only StallOctets of it, pauses longer than the server\'s read timeout, then carries on
 	StallOctets int            `json:"stall_octets,omitempty"`
+	Soak        string         `json:"soak,omitempty"`            // udp, rare: "idle" the server runs with its default read timeout (2 s) and nothing arrives for 2100 s before the traffic; "runts" 1100 one-octet datagrams arrive before it. Either way what comes afterwards is served like anything else
 	DefaultMux  bool           `json:"default_mux,omitempty"`     // mux: the package-level Handle / HandleFunc / HandleRemove and DefaultServeMux instead of a ServeMux of the run's own
 	NoInvalidFn bool           `json:"no_invalid_func,omitempty"` // Server.MsgInvalidFunc is left unset (the default configuration): reports cannot be observed, everything else can
 	Trickle     bool           `json:"trickle,omitempty"`         // the stalled frame arrives in three pieces, 1.5 and 1 read timeouts apart (each piece makes progress, none arrives in time)
@@ -169,6 +170,9 @@ func Gen(seed uint64, tier string) any {
 		b, _ := hex.DecodeString(sc.Msgs[sc.StallAt-1].Hex)
 		sc.StallOctets = r.IntN(len(b) + 2)
 		sc.Trickle = core.Chance(r, 40)
+	}
+	if sc.Transport == "udp" && sc.ShutAfter == 0 && core.Chance(r, map[bool]int{true: 3, false: 1}[tier == "thorough"]) {
+		sc.Soak = core.Pick(r, "idle", "runts")
 	}
 	if sc.Transport == "tcp" && sc.StallAt == 0 && core.Chance(r, 15) {
 		// a peer that goes away in the middle of a frame: the message it had begun is not a message the server received
@@ -479,6 +483,22 @@ func (p *peerTask) RunEvent(time.Time) {
 	} else {
 		dconn = a.n.DialPacket(a.pc)
 	}
+	if dconn != nil && p.pi == 0 {
+		switch a.sc.Soak {
+		case "idle":
+			k.Sleep("peer.soak", 2100*time.Second)
+			k.Bump("fault.long_idle_before_traffic")
+		case "runts":
+			for i := 0; i < 1100; i++ {
+				dconn.Write([]byte{0x3c})
+				if i%50 == 49 {
+					k.Sleep("peer.soak", 5*time.Millisecond)
+				}
+			}
+			k.Sleep("peer.soak", time.Second)
+			k.Bump("fault.flood_of_runt_datagrams")
+		}
+	}
 	sentFrames := 0
 	for _, im := range a.sc.Msgs {
 		if im.Peer != p.pi {
@@ -626,6 +646,9 @@ func runAdmission(sc *Scenario, res *core.Result, verbose bool) {
 	}
 	if sc.StallAt > 0 {
 		a.srv.ReadTimeout, a.srv.IdleTimeout = stallTimeout, shortIdle
+	}
+	if sc.Soak == "idle" {
+		a.srv.ReadTimeout = 0 // the library's default: the read loop wakes every two seconds
 	}
 	if sc.Transport == "tcp" {
 		a.l = n.Listen()
